@@ -12,10 +12,11 @@
 (* L2  transcription of plugins/dyngroup.rs: the incremental path           *)
 (*     (post_create / post_modify: pre/post evaluation of every cached      *)
 (*     filter on the NON-dyngroup entries of the operation) and the         *)
-(*     re-evaluation path (apply_dyngroup_change: internal search with the  *)
-(*     raw filter whenever the dynamic group entry itself is created or     *)
-(*     modified); delete through refint; revive through the modify path     *)
-(*     plus the recycled_directmemberof restore (a modify of each group)    *)
+(*     re-evaluation path (apply_dyngroup_change: internal search of the    *)
+(*     filter among live entries whenever the dynamic group entry itself is *)
+(*     created or modified); delete through refint; revive through the      *)
+(*     modify path (a recycled pre-image never matches) plus the            *)
+(*     recycled_directmemberof restore (a modify of each group)             *)
 (***************************************************************************)
 EXTENDS Naturals, Sequences, FiniteSets, TLC
 
@@ -42,9 +43,10 @@ DynExactAt(s, d) == s.dm[d] = Should(s, d)
 DynExact(s)    == \A d \in LiveDyn(s) : DynExactAt(s, d)
 
 \* ----------------------------------- L2 -----------------------------------
-\* apply_dyngroup_change: the raw filter is searched: recycled entries are not masked, tombstones have
-\* lost their attributes; dynamic groups (the group itself included) are ordinary search results.
-Reeval(s, d) == [s EXCEPT !.dm[d] = {e \in s.ids : s.lv[e] \in {"live", "recycled"} /\ Match(s.filt[d], s.av[e])}]
+\* apply_dyngroup_change: the group's filter is searched among the LIVE entries (since commit 1d61d90 the
+\* search is masked; before, recycled matches were returned too). Dynamic groups (the group itself
+\* included) are ordinary search results.
+Reeval(s, d) == [s EXCEPT !.dm[d] = {e \in s.ids : s.lv[e] = "live" /\ Match(s.filt[d], s.av[e])}]
 RECURSIVE ReevalAll(_, _)
 ReevalAll(s, D) == IF D = {} THEN s ELSE LET d == CHOOSE x \in D : TRUE IN ReevalAll(Reeval(s, d), D \ {d})
 
@@ -76,14 +78,16 @@ Delete(s, D) ==
             !.rdmo = [x \in s.ids |-> IF x \in D THEN {d \in LiveDyn(s) : x \in s.dm[d]} ELSE @[x] \ D],
             !.dm = [d \in DOMAIN @ |-> @[d] \ D]]
 
-\* revive of R: modify path with pre = the recycled entries (attributes unchanged, so the incremental
-\* path sees pre match = post match and adds nothing), revived dyngroups are re-evaluated; then every
-\* group in recycled_directmemberof is modified (static member added), which re-evaluates it.
+\* revive of R: modify path with pre = the recycled entries, which count as NOT matching (1d61d90), so
+\* the incremental path adds every revived non-dyngroup entry that matches a cached filter; revived
+\* dyngroups are re-evaluated; then every group in recycled_directmemberof is modified (static member
+\* added), which re-evaluates it.
 Revive(s, R) ==
   LET s1 == [s EXCEPT !.lv = [x \in s.ids |-> IF x \in R THEN "live" ELSE @[x]],
                       !.rdmo = [x \in s.ids |-> IF x \in R THEN {} ELSE @[x]]]
       s2 == ReevalAll(s1, R \cap s.dyn)
-  IN  ReevalAll(s2, (UNION {s.rdmo[x] : x \in R}) \cap LiveDyn(s2))
+      s3 == Incr(s2, LiveDyn(s2), R, s.av, s.av, FALSE)
+  IN  ReevalAll(s3, (UNION {s.rdmo[x] : x \in R}) \cap LiveDyn(s3))
 
 Purge(s, P) == [s EXCEPT !.lv = [x \in s.ids |-> IF x \in P THEN "tombstone" ELSE @[x]],
                          !.av = [x \in s.ids |-> IF x \in P THEN [a \in DOMAIN @[x] |-> {}] ELSE @[x]]]
